@@ -13,6 +13,13 @@ from . import core
 from .core import Sym, SymB, SymC, lift, liftb, RV, UF, HarnessError
 
 
+_ND_DTYPE = np.ndarray.dtype.__get__
+
+
+def _isobj(a):
+    return _ND_DTYPE(a) == np.dtype(object)
+
+
 def _is_sym(x):
     return isinstance(x, (Sym, SymB, SymC))
 
@@ -21,12 +28,41 @@ def has_sym(a):
     if _is_sym(a):
         return True
     if isinstance(a, np.ndarray):
-        if a.dtype != object:
+        if not _isobj(a):
             return False
         return builtins.any(_is_sym(e) for e in a.flat)
     if isinstance(a, (list, tuple)):
         return builtins.any(has_sym(e) for e in a)
     return False
+
+
+class SymDType:
+    """what SymArr.dtype reports: behaves like numpy's object dtype in comparisons but remembers whether the
+    elements are real or complex valued, so that `np.empty(shape, dtype=x.dtype)` can model NumPy's casting"""
+    kind = 'O'
+    name = 'object'
+    type = np.object_
+    itemsize = 8
+
+    def __init__(self, sym_kind):
+        self.sym_kind = sym_kind        # 'f' real-valued, 'c' complex-valued
+
+    def __eq__(self, o):
+        if isinstance(o, SymDType):
+            return self.sym_kind == o.sym_kind
+        try:
+            return np.dtype(o) == np.dtype(object)
+        except TypeError:
+            return False
+
+    def __ne__(self, o):
+        return not self.__eq__(o)
+
+    def __hash__(self):
+        return hash(('symdtype', self.sym_kind))
+
+    def __repr__(self):
+        return f"SymDType({self.sym_kind})"
 
 
 class MaskedView:
@@ -57,6 +93,19 @@ class SymArr(np.ndarray):
         obj = oarr(a).view(cls)
         return obj
 
+    _real_only = False      # set on arrays created with a real dtype: assignments drop imaginary parts (NumPy's cast)
+
+    def __array_finalize__(self, obj):
+        self._real_only = getattr(obj, '_real_only', False) if obj is not None else False
+
+    @property
+    def dtype(self):
+        base = _ND_DTYPE(self)
+        if base != np.dtype(object):
+            return base
+        cplx = builtins.any(isinstance(e, (SymC, complex, np.complexfloating)) for e in np.asarray(self).flat)
+        return SymDType('c' if cplx else 'f')
+
     def astype(self, dtype, *a, **kw):
         if dtype is object or dtype == object:
             return self
@@ -74,7 +123,7 @@ class SymArr(np.ndarray):
         return out.view(SymArr)
 
     def __getitem__(self, key):
-        if isinstance(key, np.ndarray) and key.dtype == object and key.size and builtins.all(
+        if isinstance(key, np.ndarray) and _isobj(key) and key.size and builtins.all(
                 isinstance(k, (SymB, bool, np.bool_)) for k in key.flat) and builtins.any(isinstance(k, SymB) for k in key.flat):
             return MaskedView(self, key)
         key = _concretize_key(key, self.shape)
@@ -87,12 +136,14 @@ class SymArr(np.ndarray):
             for idx in np.ndindex(self.shape):
                 np.ndarray.__setitem__(self, idx, core.ite(mask[idx], new[idx], np.ndarray.__getitem__(self, idx)))
             return
-        if isinstance(key, np.ndarray) and key.dtype == object and key.size and builtins.any(isinstance(k, SymB) for k in key.flat):
+        if isinstance(key, np.ndarray) and _isobj(key) and key.size and builtins.any(isinstance(k, SymB) for k in key.flat):
             valb = np.broadcast_to(oarr(val), self.shape)
             for idx in np.ndindex(self.shape):
                 np.ndarray.__setitem__(self, idx, core.ite(key[idx], valb[idx], np.ndarray.__getitem__(self, idx)))
             return
         key = _concretize_key(key, self.shape)
+        if self._real_only:
+            val = _map(lambda e: e.real if isinstance(e, (SymC, complex, np.complexfloating)) else e, val) if isinstance(val, np.ndarray) else (val.real if isinstance(val, (SymC, complex, np.complexfloating)) else val)
         super().__setitem__(key, val)
 
     def _cmpop(self, o, f):
@@ -239,7 +290,7 @@ class SymBytes:
 
 def oarr(x):
     """object ndarray (no copy semantics promised) holding the elements of x"""
-    if isinstance(x, np.ndarray) and x.dtype == object:
+    if isinstance(x, np.ndarray) and _isobj(x):
         return x
     if isinstance(x, np.ndarray):
         a = np.empty(x.shape, dtype=object)
@@ -400,12 +451,12 @@ class _FFT:
         return getattr(self._b, k)
 
     def fft(self, x, n=None, axis=-1, **kw):
-        if has_sym(x) or (isinstance(x, np.ndarray) and x.dtype == object):
+        if has_sym(x) or (isinstance(x, np.ndarray) and _isobj(x)):
             return sym_fft(x, n, axis)
         return self._b.fft(x, n, axis, **kw)
 
     def rfft(self, x, n=None, axis=-1, **kw):
-        if has_sym(x) or (isinstance(x, np.ndarray) and x.dtype == object):
+        if has_sym(x) or (isinstance(x, np.ndarray) and _isobj(x)):
             return sym_rfft(x, n, axis)
         return self._b.rfft(x, n, axis, **kw)
 
@@ -430,7 +481,9 @@ class NPProxy:
         if self._force_object:
             a = np.empty(shape, dtype=object)
             a[...] = 0
-            return a.view(SymArr)
+            a = a.view(SymArr)
+            a._real_only = _is_real_dtype(dtype)
+            return a
         return np.zeros(shape, dtype=dtype, **kw)
 
     def ones(self, shape, dtype=None, **kw):
@@ -444,7 +497,9 @@ class NPProxy:
         if self._force_object:
             a = np.empty(shape, dtype=object)
             a[...] = 0
-            return a.view(SymArr)
+            a = a.view(SymArr)
+            a._real_only = _is_real_dtype(dtype)
+            return a
         return np.empty(shape, dtype=dtype, **kw)
 
     def full(self, shape, fill, dtype=None, **kw):
@@ -455,9 +510,9 @@ class NPProxy:
         return np.full(shape, fill, dtype=dtype, **kw)
 
     def array(self, x, dtype=None, **kw):
-        if has_sym(x) or (isinstance(x, (list, tuple)) and builtins.any(isinstance(e, np.ndarray) and e.dtype == object for e in _flatten_list(x))):
+        if has_sym(x) or (isinstance(x, (list, tuple)) and builtins.any(isinstance(e, np.ndarray) and _isobj(e) for e in _flatten_list(x))):
             return np.array(oarr(x), dtype=object, copy=True).view(SymArr)
-        if isinstance(x, np.ndarray) and x.dtype == object:
+        if isinstance(x, np.ndarray) and _isobj(x):
             return np.array(x, dtype=object, copy=True).view(SymArr)
         return np.array(x, dtype=dtype, **kw)
 
@@ -670,19 +725,19 @@ class NPProxy:
     def real(self, a):
         if _is_sym(a):
             return a.real
-        if isinstance(a, np.ndarray) and a.dtype == object:
+        if isinstance(a, np.ndarray) and _isobj(a):
             return _map(lambda e: e.real if _is_sym(e) else np.real(e), a)
         return np.real(a)
 
     def imag(self, a):
         if _is_sym(a):
             return a.imag
-        if isinstance(a, np.ndarray) and a.dtype == object:
+        if isinstance(a, np.ndarray) and _isobj(a):
             return _map(lambda e: e.imag if _is_sym(e) else np.imag(e), a)
         return np.imag(a)
 
     def iscomplexobj(self, a):
-        if isinstance(a, np.ndarray) and a.dtype == object:
+        if isinstance(a, np.ndarray) and _isobj(a):
             return builtins.any(isinstance(e, (SymC, complex, np.complexfloating)) for e in a.flat)
         if isinstance(a, SymC):
             return True
@@ -690,7 +745,7 @@ class NPProxy:
 
     def concatenate(self, arrs, axis=0, **kw):
         arrs = list(arrs)
-        if builtins.any(isinstance(a, np.ndarray) and a.dtype == object for a in arrs):
+        if builtins.any(isinstance(a, np.ndarray) and _isobj(a) for a in arrs):
             r = np.concatenate([oarr(a) for a in arrs], axis=axis)
             return r.view(SymArr)
         return np.concatenate(arrs, axis=axis, **kw)
@@ -710,6 +765,18 @@ class NPProxy:
 
     def isscalar(self, x):
         return _is_sym(x) or np.isscalar(x)
+
+
+def _is_real_dtype(dtype):
+    """an explicitly requested real element type (NumPy would drop imaginary parts on assignment)"""
+    if dtype is None:
+        return False
+    if isinstance(dtype, SymDType):
+        return dtype.sym_kind == 'f'
+    try:
+        return np.dtype(dtype).kind in 'fiu'
+    except TypeError:
+        return False
 
 
 def _flatten_list(x):
